@@ -742,6 +742,8 @@ class ExprMixin:
             if ci is not None and self.p.lookup_method(ci, "__getitem__")[1] is not None:
                 return self.call_method(st, objv, "__getitem__", [idx], {}, frame, node)
             outs = []
+            if self.cfg.emit_reads:
+                st.emit("RD", "getitem", vrepr(objv), (vrepr(idx),), site)
             if CLS not in objv.prov and IMM not in objv.prov:
                 r = self._implicit_raise(st, frame, node, {"IndexError", "KeyError", "LookupError", "TypeError"}, "getitem")
                 if r and r[-1] is None:
